@@ -209,6 +209,20 @@ func propG(c GCase) error {
 		if d := diffJSON(exp, bm); d != "" {
 			return fmt.Errorf("round trip differs: %s\n%s", d, clip(string(data)))
 		}
+		// what Unmarshal returned is the caller's: another document decoded afterwards changes nothing in it
+		for _, o := range []string{`{"type":"LineString","coordinates":[[1,2,3],[4,5,6],[7,8,9]]}`, `{"type":"MultiPolygon","coordinates":[[[[0,0],[9,0],[9,9],[0,0]]]]}`, `{"type":"Point","coordinates":[7,7]}`} {
+			var og geom.T
+			if err := geojson.Unmarshal([]byte(o), &og); err != nil {
+				return fmt.Errorf("geojson.Unmarshal(%s): %v", o, err)
+			}
+		}
+		bmAgain, err := model.FromGeom(back)
+		if err != nil {
+			return fmt.Errorf("the geometry returned by geojson.Unmarshal is ill formed after later decodes: %v", err)
+		}
+		if d := diffJSON(exp, bmAgain); d != "" {
+			return fmt.Errorf("the geometry returned by geojson.Unmarshal changed when other documents were decoded afterwards: %s", d)
+		}
 		// the same geometry object as a member in several places of a collection tree
 		// (a value, not a cycle): GEOMETRYCOLLECTION(g, GEOMETRYCOLLECTION(g), g)
 		inner := geom.NewGeometryCollection()
